@@ -15,4 +15,4 @@ for id in "$@"; do
   echo "== $id rc=$rc $(echo "$out" | tail -1 | cut -c1-130)"
   echo "$out" | grep "key=" | grep -v KNOWN | cut -c1-110 | sed 's/: .*//' | sort | uniq -c | head -8
 done
-rm -rf /tmp/seedtest
+[ -z "$KEEP" ] && rm -rf /tmp/seedtest
